@@ -117,3 +117,12 @@ Theorem C16_expirer_order_is_the_regenerated_order : forall c s g,
   expire c s g = fold_left (run_expirer c g) gen_mro s.
 Proof. exact expire_order_regen. Qed.
 Print Assumptions C16_expirer_order_is_the_regenerated_order.
+
+(* ---- T17: the sources this property rests on keep no state outside the objects the model has (no static locals
+   or mutable globals in C, no class-level / module-level containers, `global` rebinding or cache decorators in
+   Python): the list of such sites, regenerated from the sources on every run, is empty *)
+From Coq Require Import String List.
+From DRF Require Import Gen.StateSites Proofs.StateSitesProofs.
+Theorem C16_no_state_outside_the_modelled_objects : state_sites_events = @nil string /\ state_sites_listing = @nil string.
+Proof. repeat split; first [exact no_state_outside_objects_events | exact no_state_outside_objects_listing]. Qed.
+Print Assumptions C16_no_state_outside_the_modelled_objects.
